@@ -312,13 +312,18 @@ func (c *stateCtx) runCase(it item, path string) (o outcome) {
 		if o.class != "valid" {
 			what := "accepted-invalid-block"
 			note := ""
-			if d.TxWitness && c.mode.Pool == "own" {
+			switch {
+			case d.TxWitness && c.mode.Pool == "own":
 				what = "accepted-invalid-tx-witness:mempool-shortcut"
-				note = "the transactions of the valid block were in the node's mempool in their valid form; the delivered block carries the same transaction hashes with damaged witnesses"
+				note = "the transactions of the valid block were in the node's mempool in their valid form; the delivered block carries the same transaction hashes with a damaged witness."
+			case it.Group == "witness" && c.mode.HdrKnown && blk.Hash() == c.b.Hash():
+				what = "accepted-invalid-header-witness:known-header-shortcut"
+				note = "the valid header of this height was already in the header chain (AddHeaders); the delivered block has the same hash (same signed fields) but a damaged header witness."
+			case strings.HasPrefix(it.ID, "sp.conflicting-pair"):
+				what = "accepted-mutually-conflicting-txs:later-pays-more"
+				note = "two transactions of one sender, one naming the other in a Conflicts attribute, both in the block; the later one pays the higher network fee."
 			}
-			if post.Root == c.bRoot {
-				note += " [state root after acceptance equals the one after the valid block]"
-			}
+			note += c.probeAccepted(n, blk, post)
 			bad(what, "", pre.diff(post, true), note)
 			return
 		}
@@ -367,6 +372,38 @@ func (c *stateCtx) runCase(it item, path string) (o outcome) {
 	return
 }
 
+// probeAccepted describes what the ledger holds after it accepted an invalid
+// candidate (for the finding report; not an oracle).
+func (c *stateCtx) probeAccepted(n *chainx.Node, blk *block.Block, post snap) string {
+	var sb strings.Builder
+	if post.Root == c.bRoot {
+		sb.WriteString(" State root after acceptance equals the one after the valid block.")
+	} else {
+		sb.WriteString(" State root after acceptance differs from the one after the valid block.")
+	}
+	if h, err := n.BC.GetHeader(blk.Hash()); err != nil {
+		fmt.Fprintf(&sb, " GetHeader(accepted block) fails: %v.", err)
+	} else if !bytes.Equal(h.Script.InvocationScript, c.b.Script.InvocationScript) || !bytes.Equal(h.Script.VerificationScript, c.b.Script.VerificationScript) {
+		if blk.Hash() == c.b.Hash() {
+			sb.WriteString(" The stored header carries the damaged witness, not the valid one.")
+		}
+	}
+	if _, err := n.BC.GetBlock(blk.Hash()); err != nil {
+		fmt.Fprintf(&sb, " GetBlock(accepted block) fails: %v.", err)
+	}
+	for i, t := range blk.Transactions {
+		st, _, err := n.BC.GetTransaction(t.Hash())
+		if err != nil {
+			fmt.Fprintf(&sb, " GetTransaction(tx %d of the accepted block) fails: %v.", i, err)
+			continue
+		}
+		if i < len(c.b.Transactions) && t.Hash() == c.b.Transactions[i].Hash() && !bytes.Equal(st.Scripts[0].InvocationScript, c.b.Transactions[i].Scripts[0].InvocationScript) {
+			fmt.Fprintf(&sb, " The stored tx %d carries the damaged witness.", i)
+		}
+	}
+	return sb.String()
+}
+
 // ---- state space -------------------------------------------------------------------------
 
 var tplNames = []string{"empty", "vote1", "gas-transfer", "u-storage2", "policy-fee+tx", "block-account3", anchorName, "fault-between"}
@@ -382,7 +419,9 @@ type stateSpec struct {
 func quickStates() []stateSpec {
 	return []stateSpec{
 		{fam: "single", hist: nil, mode: "plain"},
-		{fam: "single", hist: []string{"gas-transfer"}, mode: "pooled-own+flushed"},
+		{fam: "single", hist: nil, mode: "pooled-own+flushed"},
+		{fam: "single", hist: nil, mode: "bystander+hdr-known"},
+		{fam: "single", hist: []string{"gas-transfer"}, mode: "pooled-own+hdr-known+flushed"},
 		{fam: "single", hist: []string{anchorName, "empty"}, mode: "plain"},
 		{fam: "single", hist: []string{"block-account3"}, mode: "bystander+hdr-known"},
 		{fam: "single-srih", hist: nil, mode: "pooled-own+flushed"},
@@ -647,7 +686,8 @@ func TestCheck(t *testing.T) {
 		}
 		for _, v := range o.viols {
 			key := fmt.Sprintf("%s:%s:%s:%s", v.what, j.c.fam.Name, j.it.ID, j.path)
-			if strings.HasPrefix(v.what, "accepted-invalid-tx-witness:mempool-shortcut") {
+			if strings.Contains(v.what, ":") {
+				// recognised acceptance paths: one finding per family
 				key = v.what + ":" + j.c.fam.Name
 			}
 			if f, ok := finds[key]; !ok || i < f.idx {
